@@ -72,7 +72,11 @@ class C06(c01.C01):
             return
         want = observe.dobs(doc)
         try:
+            fresh_text = doc.get_provn()
+            observe.touch(doc)  # reading a record through its accessors must not change what is printed
             text = doc.get_provn()
+            if text != fresh_text:
+                out.violation("provn-changes-after-reading-accessors", "text", {"where": where, "before": fresh_text[:600], "after": text[:600]}, hist, extra)
             text2 = doc.serialize(format="provn")
         except Exception as e:
             out.violation("provn-writer-raises", type(e).__name__, {"error": repr(e), "where": where}, hist, extra)
